@@ -1,6 +1,7 @@
 From Coq Require Import ZArith List Bool Lia.
 From Arsenal Require Import Util.
 From Arsenal Require Import Budget BudgetProofs.
+From Arsenal Require VamDev VamBlockList Vam VamInv VamInvThm VamProps VamAcct VamAcctThm.
 Import ListNotations.
 Open Scope Z_scope.
 (* C04 — Allocator statistics and heap budget figures equal device ground truth.
@@ -47,3 +48,50 @@ Print Assumptions C04_usage_formula.
 
 Example C04_nonvacuous : in_bdomain ex_cfg ex_rep ex_bops = true.
 Proof. exact ex_in_bdomain. Qed.
+
+(* ---------------------------------------------------------------- whole allocator (model Vam*.v)
+   For EVERY state reachable from vam.New by any sequence of API calls in the domain (request, pool-block and
+   resource sizes below 2^62; at most 2^22 Allocation objects), each with ANY fault oracle for its driver
+   calls (failed and refused operations are steps too): the allocator's per-heap budget counters are
+   exactly the number / bytes of the VkDeviceMemory objects live on the (simulated) device and of the
+   allocated Allocation objects; without the budget extension HeapBudget's usage figure is the device's
+   bytes; CalculateStatistics' per-type walk never panics and its blocks / allocations / block bytes /
+   allocation bytes equal the figures recomputed from the block lists, pools and dedicated lists.
+   OPEN: the min / max / unused-range figures and the heap / total aggregation of CalculateStatistics, the
+   steps of a defragmentation run (decided by the vamh exploration). *)
+Module Allocator.
+Import VamDev VamBlockList Vam VamInv VamInvThm VamProps VamAcct VamAcctThm.
+
+Theorem C04_allocator_budget_equals_truth : forall c v,
+  cfg_acct c -> reachA c v ->
+  (forall h, heaps (m_bud (v_m v)) h = mkHc (dev_count c v h) (alloc_count c v h) (dev_bytes c v h) (alloc_bytes c v h)) /\
+  memCount (m_bud (v_m v)) = zlen (m_mems (v_m v)).
+Proof. intros c v Ha. exact (budget_equals_truth c Ha v). Qed.
+Print Assumptions C04_allocator_budget_equals_truth.
+
+Theorem C04_allocator_dev_bytes_is_device : forall c v h,
+  cfg_acct c -> dev_bytes c v h = dev_heap_bytes c (m_mems (v_m v)) h.
+Proof. intros c v h Ha. exact (dev_bytes_heap_bytes c Ha v h). Qed.
+Print Assumptions C04_allocator_dev_bytes_is_device.
+
+Theorem C04_allocator_usage_equals_truth : forall c v h,
+  cfg_acct c -> reachA c v -> budget_active c = false ->
+  let '(m', usage, budget) := heap_budget c (v_m v) h in usage = dev_bytes c v h.
+Proof. intros c v h Ha. exact (usage_equals_truth c Ha v h). Qed.
+Print Assumptions C04_allocator_usage_equals_truth.
+
+Theorem C04_allocator_stats_equal_truth : forall c v t,
+  cfg_ok c -> reach c v -> exists d, type_dstats v t = Some d /\ basic d = type_truth v t.
+Proof. intros c v t Hc R. apply (stats_equal_truth c). apply reach_inv; assumption. Qed.
+Print Assumptions C04_allocator_stats_equal_truth.
+
+Example C04_allocator_nonvacuous :
+  match vam_new exA_cfg 4 with
+  | OK v0 =>
+    let '(vf, rs) := exA_run v0 exA_ops in
+    reachA exA_cfg vf /\ rs = [ROk; ROk; RErr (-2); RErr (-2); ROk] /\
+    heaps (m_bud (v_m vf)) 0 = mkHc 2 1 (16384 + 300000) 300000 /\ zlen (m_mems (v_m vf)) = 2
+  | _ => False
+  end.
+Proof. exact acct_nonvacuous. Qed.
+End Allocator.
